@@ -75,6 +75,9 @@ def corpus(repo):
         'test_macro!(target: "t", ref = 5; "a")', 'test_macro!(target: "t", a = 1, ref = 5, b = 2; "a")',
         'a\n// test_macro!("x")', '/// test_macro!("a")\nfn f(){}', 'test_macro!("a")test_macro1!("b")',
         'test_macro!(k=1,;"a")', 'test_macro!(k = 1, l; "a")', 'test_macro!(k:debug = 1; "a")',
+        'test_macro!(\n    target: "t",\n    "a"\n)', 'test_macro!(target: "\u00e9\u2192", "a")',
+        'fn f() {\n\ttest_macro!(\n\t\ttarget: "t",\n\t\tk = 1;\n\t\t"a"\n\t);\n}\n', 'x\r\n  test_macro!(target: "t",\r\n "a")\r\n',
+        '\u00e9\u00e9 test_macro!(k:? ; "\u00e9")', 'test_macro!(e:?; "a")', 'test_macro!(a:%, b:debug, c:display = 1; "a")',
     ]
     seen = set()
     out = []
@@ -99,7 +102,27 @@ def compare(src, runner, text, structured, macros=TEST_MACROS, dirs=None):
     mine = model.entries_concrete(fm, macros, structured, dirs)
     r = [(e["pos"], e["reference"], e["kind"]) for e in real["entries"]]
     m = [(e["pos"], e["reference"], e["kind"]) for e in mine]
+    lc = linecol_mismatches(text, real["entries"])
+    if lc:
+        return ("LINECOL", lc, None)
     return ("ok" if r == m else "DIFF", r, m)
+
+
+def linecol_mismatches(text, entries):
+    """C05: reported (line, column) are 1-based, in characters, and are those of the insertion offset"""
+    out = []
+    raw = text.encode("utf-8")
+    for e in entries:
+        try:
+            ci = len(raw[:e["pos"]].decode("utf-8"))
+        except UnicodeDecodeError:
+            out.append({"entry": e, "why": "offset is not a character boundary"})
+            continue
+        line = 1 + text[:ci].count("\n")
+        col = 1 + (ci - (text.rfind("\n", 0, ci) + 1))
+        if (e["line"], e["col"]) != (line, col):
+            out.append({"pos": e["pos"], "reported": [e["line"], e["col"]], "expected": [line, col]})
+    return out
 
 
 def run(repo="/repo", verbose=False):
@@ -108,6 +131,7 @@ def run(repo="/repo", verbose=False):
     runner = native.Runner()
     n = 0
     diffs = []
+    linecol = []
     skipped = 0
     try:
         for text in corpus(repo):
@@ -117,12 +141,15 @@ def run(repo="/repo", verbose=False):
                     skipped += 1
                     continue
                 n += 1
-                if res[0] != "ok":
+                if res[0] == "LINECOL":
+                    linecol.append((text, structured, res[1]))
+                elif res[0] != "ok":
                     diffs.append((text, structured, res))
                     if verbose:
                         print("DIFF", repr(text), structured, res)
     finally:
         runner.close()
+    run.linecol = linecol
     return n, skipped, diffs
 
 
